@@ -5,7 +5,7 @@
 
 use circ::verif as cv;
 use circ::verif::ebr::LocalHandle;
-use circ::Rc;
+use circ::{Rc, Weak};
 
 use crate::exec::{Body, Params, Program};
 use crate::monitor::mon;
@@ -17,6 +17,11 @@ pub static SCENARIOS: &[ScenarioDef] = &[
         name: "gen/rc",
         about: "every pair of programs of <= k operations per thread over a 12-letter alphabet on a world root -> x -> y with weak pointers, plus a thread running rounds",
         build: gen_rc,
+    },
+    ScenarioDef {
+        name: "gen/weak",
+        about: "every pair of programs of <= k operations per thread over a 12-letter weak-pointer alphabet (AtomicWeak, WeakSnapshot::counted/upgrade, Weak clone/drop/upgrade) from four lifecycle states of the object, plus a thread running rounds",
+        build: gen_weak,
     },
     ScenarioDef {
         name: "gen/ebr",
@@ -225,6 +230,176 @@ fn gen_rc(p: &Params) -> Program {
             for i in 0..4 {
                 if w.rc[i].is_some() {
                     c.deref(w.rc[i].get());
+                }
+            }
+        })),
+        ..Default::default()
+    }
+}
+
+// ------------------------------------------------------------------------------------ gen/weak
+
+pub const WEAK_ALPHABET: i64 = 12;
+
+pub fn weak_cases(k1: usize, k2: usize) -> i64 {
+    WEAK_ALPHABET.pow((k1 + k2) as u32)
+}
+
+/// Thread `t` owns weak slots 2t (a Weak it holds from the start) and 2t+1 (scratch), rc slot t.
+fn run_weak_program(c: &Ctx, w: &'static World, t: usize, prog: &[u8]) {
+    let (w0, w1) = (2 * t, 2 * t + 1);
+    for &op in prog {
+        match op {
+            // re-create a Weak from the cell's content inside a critical section
+            0 => {
+                if !w.weak[w1].is_some() {
+                    let g = c.pin();
+                    let ws = c.wload(&w.wroots[0], &g);
+                    if !ws.s.is_null() {
+                        let nw = c.ws_counted(ws);
+                        w.weak[w1].put(nw);
+                    }
+                    c.unpin(g);
+                }
+            }
+            // the same, dropping it again before leaving the critical section
+            1 => {
+                let g = c.pin();
+                let ws = c.wload(&w.wroots[0], &g);
+                if !ws.s.is_null() {
+                    let nw = c.ws_counted(ws);
+                    c.wdrop(nw);
+                }
+                c.unpin(g);
+            }
+            2 => {
+                if let Some(x) = w.weak[w1].try_take() {
+                    c.wdrop(x);
+                }
+            }
+            3 => {
+                if let Some(x) = w.weak[w0].try_take() {
+                    c.wdrop(x);
+                }
+            }
+            4 => {
+                let g = c.pin();
+                c.wstore(&w.wroots[0], Weak::null(), &g);
+                c.unpin(g);
+            }
+            5 => {
+                if let Some(x) = w.weak[w1].try_take() {
+                    let g = c.pin();
+                    c.wstore(&w.wroots[0], x, &g);
+                    c.unpin(g);
+                }
+            }
+            6 => {
+                if w.weak[w0].is_some() {
+                    if let Some(r) = c.upgrade(w.weak[w0].get()) {
+                        c.deref(&r);
+                        c.drop_rc(r);
+                    }
+                }
+            }
+            7 => {
+                if w.weak[w0].is_some() && !w.weak[w1].is_some() {
+                    let x = c.wclone(w.weak[w0].get());
+                    w.weak[w1].put(x);
+                }
+            }
+            8 => {
+                if let Some(r) = w.rc[t].try_take() {
+                    c.drop_rc(r);
+                }
+            }
+            9 => c.round(),
+            10 => {
+                let g = c.pin();
+                let ws = c.wload(&w.wroots[0], &g);
+                if let Some(s) = c.ws_upgrade(ws) {
+                    c.sderef(s);
+                    c.sderef(s);
+                }
+                c.unpin(g);
+            }
+            _ => {
+                let x = c.wswap(&w.wroots[0], Weak::null());
+                c.wdrop(x);
+            }
+        }
+    }
+}
+
+fn gen_weak(p: &Params) -> Program {
+    let k1 = p.get("k1", 2) as usize;
+    let k2 = p.get("k2", 2) as usize;
+    let case = p.get("case", 0);
+    let p1 = decode(case % WEAK_ALPHABET.pow(k1 as u32), k1, WEAK_ALPHABET);
+    let p2 = decode(case / WEAK_ALPHABET.pow(k1 as u32), k2, WEAK_ALPHABET);
+    // init 0: x alive (thread 1 holds an Rc), cell and both threads hold Weaks
+    // init 1: x destructed long ago; the cell holds the ONLY Weak
+    // init 2: x at count 0, attempt `pre` rounds old; cell and thread 0 hold Weaks
+    // init 3: x destructed long ago; cell and thread 0 hold Weaks
+    // init 4: x at count 0, attempt `pre` rounds old; the cell holds the ONLY Weak
+    let init = p.get("init", 0);
+    let pre = p.get("pre", 2) as usize;
+    Program {
+        e0: p.get("e0", 0) as usize,
+        classes: p.get("classes", crate::sched::RC as i64) as u8,
+        claim: crate::exec::claim_of(p),
+        setup: Some(body(move |c, w| {
+            let x = c.new_node(1);
+            let wx = c.downgrade(&x);
+            let g = c.pin();
+            c.wstore(&w.wroots[0], c.wclone(&wx), &g);
+            c.unpin(g);
+            match init {
+                0 => {
+                    w.weak[0].put(c.wclone(&wx));
+                    w.weak[2].put(c.wclone(&wx));
+                    w.rc[1].put(x);
+                    c.wdrop(wx);
+                }
+                1 => {
+                    c.wdrop(wx);
+                    c.drop_rc(x);
+                    c.rounds(8);
+                }
+                2 => {
+                    w.weak[0].put(wx);
+                    c.drop_rc(x);
+                    c.rounds(pre);
+                }
+                4 => {
+                    // as 2, but the cell holds the only Weak
+                    c.wdrop(wx);
+                    c.drop_rc(x);
+                    c.rounds(pre);
+                }
+                _ => {
+                    w.weak[0].put(wx);
+                    c.drop_rc(x);
+                    c.rounds(8);
+                }
+            }
+        })),
+        threads: vec![
+            body(move |c, w| run_weak_program(c, w, 0, &p1)),
+            body(move |c, w| run_weak_program(c, w, 1, &p2)),
+            body(|c, _| c.rounds(3)),
+        ],
+        post: Some(body(|c, w| {
+            c.rounds(6);
+            // whatever Weak is still held must still be usable
+            for i in 0..4 {
+                if w.weak[i].is_some() {
+                    let x = c.wclone(w.weak[i].get());
+                    if let Some(r) = c.upgrade(&x) {
+                        c.deref(&r);
+                        c.drop_rc(r);
+                    }
+                    c.wdrop(x);
                 }
             }
         })),
